@@ -17,6 +17,8 @@ pub enum Base {
     /// 0 = tests/dlt-messages.xml, 1 = tests/robustness.xml of the repository
     Sample(u8),
     Generated { model: fx::Model, layout: fx::Layout },
+    /// arbitrary document bytes (inputs found by the coverage-guided tier)
+    Raw(#[serde(with = "crate::util::hexser")] Vec<u8>),
 }
 #[derive(Debug, Clone, Hash, PartialEq, Eq, Serialize, Deserialize)]
 pub enum Damage {
@@ -310,6 +312,7 @@ pub fn check(c: &Case) -> CheckResult {
             None => return Ok(pass.class("sample-file-missing")),
         },
         Base::Generated { model, layout } => fx::render(model, layout).into_iter().map(|s| s.into_bytes()).collect(),
+        Base::Raw(b) => vec![b.clone()],
     };
     let target = c.which_file as usize % docs.len();
     let base_doc = &docs[target];
@@ -317,6 +320,7 @@ pub fn check(c: &Case) -> CheckResult {
     let label = match &c.base {
         Base::Sample(_) => "sample",
         Base::Generated { .. } => "generated",
+        Base::Raw(_) => "raw",
     };
     if c.damage == Damage::AllTruncations {
         let mut damaged = docs.clone();
@@ -367,7 +371,11 @@ pub fn check(c: &Case) -> CheckResult {
     if docs.len() > 1 {
         pass.classes.push("multi-file-set");
     }
-    pass.classes.push(if label == "sample" { "base:sample" } else { "base:generated" });
+    pass.classes.push(match label {
+        "sample" => "base:sample",
+        "raw" => "base:raw",
+        _ => "base:generated",
+    });
     pass.classes.sort();
     pass.classes.dedup();
     Ok(pass)
@@ -454,7 +462,10 @@ pub fn run(run: &Run) {
     cleanup_workdirs();
 }
 
-pub fn replay(_section: &str, case: &Json) -> Option<CheckResult> {
+pub fn replay(section: &str, case: &Json) -> Option<CheckResult> {
+    if section.starts_with("fuzz-") {
+        return super::fuzz_replay("C12", section, case);
+    }
     let r = case_from::<Case>(case).map(|c| check(&c));
     drop_evaluator();
     cleanup_workdirs();
